@@ -371,6 +371,27 @@ NoUnderflow == \A t \in Thr : /\ pc[t] = "dec_cas" => cnt[reg[t].o].s >= 1
 Once == \A t \in Thr : /\ pc[t] = "dg3" => life[reg[t].o] = "live"
                        /\ (pc[t] = "dg5" \/ pc[t] = "tdealloc2") => life[reg[t].o] = "dead"
 EpochBound == \A t \in Thr : Pinned(t) => gep \in {lep[t], lep[t] + 1}
+DecPcs == {"dec_pin", "dec_ep", "dec_cas"}
+Card(S) == Cardinality(S)
+RECURSIVE SumRc(_, _)
+SumRc(S, o) == IF S = {} THEN 0 ELSE LET t == CHOOSE x \in S : TRUE IN rc[t][o] + SumRc(S \ {t}, o)
+LinksTo(o) == Card({l \in Loc : (l \in Cell \/ life[l] = "live") /\ lnk[l].p = o})
+InfApi(o) == Card({t \in Thr : pc[t] \in DecPcs /\ reg[t].o = o /\ ~reg[t].tmp /\ mode[t] # "col"})
+InfInc(o) == Card({t \in Thr : pc[t] = "rc_fin" /\ reg[t].tmp /\ reg[t].o = o})
+InfDg(o) == Card({t \in Thr : pc[t] \in {"dg4", "dg5", "dg6"} /\ reg[t].x = o})
+RealRefs(o) == SumRc(Thr, o) + LinksTo(o) + InfApi(o) + InfInc(o) + InfDg(o)
+Tok(o) == cnt[o].s - RealRefs(o)
+RECURSIVE SumTasks(_, _)
+SumTasks(K, o) == IF K = {} THEN 0 ELSE LET k == CHOOSE x \in K : TRUE IN (IF k.k = "destruct" /\ k.o = o THEN tasks[k] ELSE 0) + SumTasks(K \ {k}, o)
+RespThr(o) == Card({t \in Thr : (pc[t] = "td" /\ reg[t].o = o)
+                                  \/ (pc[t] \in DecPcs /\ reg[t].o = o /\ mode[t] = "col" /\ ~reg[t].tmp)
+                                  \/ (pc[t] \in {"dg0", "dg1", "dg2", "dgm"} /\ reg[t].o = o /\ reg[t].d > 0)})
+DestructKeys(o) == {[k |-> "destruct", o |-> o, ep |-> e] : e \in 0..(MaxEp+1)}
+Resp(o) == Card({k \in DestructKeys(o) : tasks[k] > 0}) + RespThr(o)
+TaskOnce == \A k \in TaskKey : tasks[k] <= 1
+WF == \A o \in Obj : (life[o] = "live" /\ ~cnt[o].d) =>
+        /\ Tok(o) \in {0, 1}
+        /\ Resp(o) = (IF cnt[o].s = 0 \/ Tok(o) = 1 THEN 1 ELSE 0)
 Quiescent == \A t \in Thr : pc[t] = "idle" /\ mode[t] = "out"
 NoTasks == \A k \in TaskKey : tasks[k] = 0
 NoOwner(o) == \A t \in Thr : rc[t][o] = 0
